@@ -24,7 +24,7 @@ extern int mpt_path_last(MPT_STRUCT(path) *path)
 		errno = EINVAL; return -2;
 	}
 	if (path->flags & MPT_PATHFLAG(SepBinary)) {
-		if (pos < 2 || pos < (len = data[pos-2])) {
+		if (pos < 2 || pos < (len = (uint8_t) data[pos-2])) {
 			errno = EINVAL; return -2;
 		}
 		pos -= len;
@@ -43,7 +43,9 @@ extern int mpt_path_last(MPT_STRUCT(path) *path)
 		--data; ++len; --pos;
 	}
 	path->off += pos;
-	path->len  = (path->first = len) + 1;
+	/* length not representable: search separator on next access */
+	path->first = (len > UINT8_MAX) ? 0 : len;
+	path->len  = len + 1;
 	
 	return len;
 }
